@@ -51,12 +51,13 @@ const maxStrSet = 256
 
 // strEval folds string-valued SSA values to finite sets of strings.
 type strEval struct {
-	m       *Model
-	synth   map[string]synthBinding // synthetic named parameters introduced for %d etc.
-	holes   int
-	why     []string // reasons for giving up
-	loadVal map[*ssa.UnOp][]string
-	busy    map[strKey]bool
+	m        *Model
+	synth    map[string]synthBinding // synthetic named parameters introduced for %d etc.
+	holes    int
+	fmtHoles int      // caller-supplied text used as (part of) a Sprintf FORMAT string
+	why      []string // reasons for giving up
+	loadVal  map[*ssa.UnOp][]string
+	busy     map[strKey]bool
 	// liveEdge, when set, restricts evaluation to a cut CFG: a phi edge coming from a
 	// predecessor that is unreachable (or over a removed edge) contributes nothing.
 	liveEdge func(pred, blk *ssa.BasicBlock, fr *frame) bool
@@ -290,6 +291,11 @@ func (e *strEval) evalSprintf(call *ssa.Call, fr *frame) ([]string, bool) {
 	formats, ok := e.eval(args[0], fr)
 	if !ok {
 		return nil, false
+	}
+	for _, f := range formats {
+		if strings.Contains(f, holeToken) {
+			e.fmtHoles++
+		}
 	}
 	var vargs []ssa.Value
 	if len(args) > 1 {
